@@ -44,6 +44,13 @@ def canonicalize_url(
         splitted.port,
     )
 
+    # NOTE: brackets only belong around an ip literal: in the userinfo they hide the
+    # host's own brackets from the parser's validation
+    userinfo, _, hostinfo = netloc.rpartition("@")
+
+    if "[" in userinfo or "]" in userinfo:
+        raise ValueError("Invalid URL (brackets in userinfo)")
+
     # Decoding and normalizing hostname
     if hostname:
         hostname = decode_punycode_hostname(hostname)
